@@ -83,10 +83,11 @@ RULE = ("stream 'eng' (5 of 6 cases): random rule systems of harness/rules.py (3
         "one later request returned a value; distinct by JSON text")
 TRUSTED = ["harness/rules.py: compiler from rule-system terms to real Variable subclasses (formulas call the public API)",
            "harness/c19.py: field-by-field snapshot of a real simulation (holders, populations) used by the oracle",
-           "C19's theorems take the period <-> file-name round trip as an explicit hypothesis "
-           "(forall p, storable p -> parse (show p) = Ok p): it is C05's theorem period_roundtrip; the correspondence "
-           "instantiates show / parse with an injective encoding whose round trip is proved (enc_roundtrip), the real "
-           "file names (str(period)) are exercised by the oracle on the implementation only",
+           "restore_dump_identity is stated for any show / parse with the round trip as explicit hypothesis; "
+           "restore_dump_identity_real_names instantiates it with the models of Period.__str__ / periods.period of "
+           "coq/model/PeriodStr.v (C05's correspondence ties those to the implementation) and discharges the hypothesis "
+           "with C05's period_roundtrip; the C19 correspondence itself runs the model with an injective encoding "
+           "(enc_roundtrip) and compares file counts, not names; the real names are exercised by the oracle",
            "the file system (os.listdir, numpy.save / numpy.load) is modelled as an association list path -> content"]
 ASSUMPTIONS = ["the engine model has int / float / bool values and one group entity: Enum, str and date variables, "
                "EnumArray.possible_values, dtypes, several group entities and sub-roles are covered by the ORACLE on "
